@@ -148,6 +148,7 @@ func TestGen(t *testing.T) {
 			}
 		}
 	}
+	genWebhook(t, c, &id)
 	genIdem(t, c, &id)
 	if err := c.Flush(); err != nil {
 		t.Fatal(err)
@@ -350,7 +351,10 @@ func genIdem(t *testing.T, c *vlib.Collector, id *int) {
 			continue
 		}
 		if st == nil {
-			st = loadSettings(t)
+			if sharedSettings == nil {
+				sharedSettings = loadSettings(t)
+			}
+			st = sharedSettings
 		}
 		if _, ok := st.cfg.Templates[g.Template]; g.Template != "" && !ok {
 			g.Template = ""
@@ -422,3 +426,79 @@ func genIdem(t *testing.T, c *vlib.Collector, id *int) {
 }
 
 func intstrPort(p int) intstr.IntOrString { return intstr.FromInt32(int32(p)) }
+
+
+// ---------------------------------------------------------------- the decision as the webhook takes it
+// Same abstract inputs, but sent as an AdmissionReview through Webhook.inject: the namespace may be only on the
+// request (controller-created pods), the ignored-namespace list is the webhook's own, and "injected" is observed as
+// "a patch was produced".
+var sharedSettings *settings
+
+func genWebhook(t *testing.T, c *vlib.Collector, id *int) {
+	r := vlib.NewRand(vlib.Seed() ^ 0x19b)
+	n := vlib.Scale(400, 4000)
+	ignored := inject.IgnoredNamespaces.UnsortedList()
+	sort.Strings(ignored)
+	for k := 0; k < n; k++ {
+		*id++
+		d := decIn{Host: r.Chance(10), NsIgn: r.Chance(35), Lbl: r.Intn(5), Anno: r.Intn(5), Never: r.Chance(30), Always: r.Chance(30), Pol: r.Intn(3), Variant: r.Intn(1000)}
+		nsOnRequestOnly := r.Bool()
+		if !c.Wanted(*id) {
+			continue
+		}
+		if sharedSettings == nil {
+			sharedSettings = loadSettings(t)
+		}
+		st := sharedSettings
+		garb := []string{"yes", "True", "1", " true", "enabled"}[d.Variant%5]
+		ns := "app"
+		if d.NsIgn {
+			ns = ignored[d.Variant%len(ignored)]
+		}
+		pod := corev1.Pod{TypeMeta: metav1.TypeMeta{Kind: "Pod", APIVersion: "v1"},
+			ObjectMeta: metav1.ObjectMeta{GenerateName: "p-", Namespace: ns, Labels: map[string]string{"app": "x", "team": "t1"}, Annotations: map[string]string{}},
+			Spec:       corev1.PodSpec{HostNetwork: d.Host, Containers: []corev1.Container{{Name: "app", Image: "example.com/app:1"}}}}
+		if nsOnRequestOnly {
+			pod.Namespace = ""
+		}
+		if v, ok := selValue(d.Lbl, garb); ok {
+			pod.Labels[label.SidecarInject.Name] = v
+		}
+		if v, ok := selValue(d.Anno, garb); ok {
+			pod.Annotations[annotation.SidecarInject.Name] = v
+		}
+		cfg := *st.cfg
+		switch d.Pol {
+		case 0:
+			cfg.Policy = inject.InjectionPolicyEnabled
+		case 1:
+			cfg.Policy = inject.InjectionPolicyDisabled
+		default:
+			cfg.Policy = inject.InjectionPolicy([]string{"", "off", "Enabled", "true"}[d.Variant%4])
+		}
+		cfg.NeverInjectSelector = nil
+		cfg.AlwaysInjectSelector = nil
+		if d.Never {
+			cfg.NeverInjectSelector = []metav1.LabelSelector{{MatchLabels: map[string]string{"app": "other"}}, {MatchLabels: map[string]string{"app": "x"}}}
+		}
+		if d.Always {
+			cfg.AlwaysInjectSelector = []metav1.LabelSelector{{}, {MatchExpressions: []metav1.LabelSelectorRequirement{{Key: "team", Operator: metav1.LabelSelectorOpExists}}}}
+		}
+		raw, _ := json.Marshal(&pod)
+		var allowed, injected bool
+		if pan, msg := vlib.Recover(func() { allowed, injected = inject.VerifWebhookDecide(&cfg, st.values, st.mesh, raw, ns) }); pan {
+			c.Violate(vlib.Violation{ID: *id, Kind: "panic", Detail: msg, Case: d})
+			continue
+		}
+		if !allowed {
+			c.Violate(vlib.Violation{ID: *id, Kind: "oracle", Detail: "admission denied for a well-formed pod", Case: d})
+			continue
+		}
+		tags := []string{"webhook", fmt.Sprintf("webhook:ns-on-request-only=%v", nsOnRequestOnly)}
+		if injected {
+			tags = append(tags, "webhook:injected")
+		}
+		c.Add(vlib.Case{ID: *id, Term: decTerm(*id, d, injected), Tags: tags, Trivial: d.Host,
+			Sample: map[string]any{"kind": "webhook-decision", "input": d, "namespace": ns, "ns_on_request_only": nsOnRequestOnly, "observed": injected}})
+	}
+}
